@@ -14,7 +14,7 @@ flattening of Props/C05Multi.lean in which
   reference: placeholder, rewritten at the includer's end) and below it alike.  The aliases of the main file define the
   real global table (name space `num 0`; the main file is instance 1, included files are numbered in preorder from 2).
 
-Proved: `layout_refines_asm_global_partial` — for a project whose include tree is free of `.import/.export`, with `plain`
+Proved: `layout_refines_asm_global_partial` — for a project whose include tree is free of `.import/.export`, with arbitrary (no longer `plain`)
 operands, and in which every `.global x` stands below a label / `.const` of the same file defining `x` or below an
 `.include` of a file that itself declares `x` global (re-publication up the include chain to the real global table;
 `Glob.GlobalProject`, `Glob.declOk`): a successful run's image is the `pass2` image of the reference on the flattened program with
@@ -160,7 +160,7 @@ def globalProjectB (fs : Bytes → Option Bytes) : Nat → Bytes → Bytes → B
   | 0, _, _ => true
   | fuel + 1, path, data =>
     match parseFile data with
-    | .ok (els, _) => declOk fs path [] els && els.all fun el => okGlob el && plainEl el &&
+    | .ok (els, _) => declOk fs path [] els && els.all fun el => okGlob el &&
         match incTarget fs path el with
         | some (p', d') => globalProjectB fs fuel p' d'
         | none => true
@@ -175,8 +175,8 @@ theorem globalProject_of_B (fs : Bytes → Option Bytes) : ∀ (fuel : Nat) (pat
     intro path data h els perr hp
     simp only [globalProjectB, hp, List.all_eq_true, Bool.and_eq_true] at h
     refine ⟨h.1, fun el hel => ?_⟩
-    obtain ⟨⟨h1, h2⟩, h3⟩ := h.2 el hel
-    refine ⟨h1, h2, fun p' d' ht => ih p' d' ?_⟩
+    obtain ⟨h1, h3⟩ := h.2 el hel
+    refine ⟨h1, fun p' d' ht => ih p' d' ?_⟩
     rw [ht] at h3
     exact h3
 
